@@ -933,3 +933,7 @@ mod tests {
         );
     }
 }
+
+#[cfg(kani)]
+#[path = "/verif/kani/aranya-runtime/responder.rs"]
+mod verif_kani;
